@@ -330,6 +330,20 @@ WithdrawBounded(pre, e) ==
      /\ Len(M2.earlyDls) = 0
      /\ \A i \in Idx(e.tr) : (e.tr[i][1] = e.m) => e.tr[i][2] \in {M2.ben, "f099", "f04"}
 
+\* "any fee debt is repaid in full as part of the same call": what was owed before a successful withdrawal
+\* went to the burnt-funds actor in that call; and the payout never exceeds the request
+WithdrawRepaysDebt(pre, e) ==
+  (e.ev = "Withdraw" /\ e.ok) =>
+     LET M1 == MinerByName(pre, e.m) M2 == MinerByName(e.st, e.m) IN
+     /\ BLeq(M1.debt, SentFrom(e.tr, e.m, "f099"))
+     /\ BLeq(SentFrom(e.tr, e.m, M2.ben), BMulSmall(BMulSmall(BMulSmall(BOfInt(e.nano), 10000), 10000), 10))   \* nanoFIL -> attoFIL
+\* C15: "every charged amount is either burnt at once or recorded as fee debt": fee debt never just disappears --
+\* whenever a miner's debt goes down, at least that much went to the burnt-funds actor in the same step
+DebtOnlyRepaidByBurn(pre, e) ==
+  \A i \in Idx(e.st.miners) :
+     LET M2 == e.st.miners[i] M1 == MinerByName(pre, M2.m) IN
+     BLeq(M2.debt, M1.debt) => BLeq(BSub(M1.debt, M2.debt), SentFrom(e.tr, M2.m, "f099"))
+
 \* ---- C14: the vesting table
 VestShape(Wd) ==
   \A i \in Idx(Wd.miners) : LET M == Wd.miners[i] IN
